@@ -109,7 +109,14 @@ theorem mulMatrix_identity (rootDec : Op α → Op α) (n : Nat) (b : Op α) (hz
     (hc : b.isConstDiag = false) :
     mulMatrix rootDec (.identity n) b = .ok (.diag n fun i => 1 * b.denote i i) := by
   have h1 : ((Op.identity n : Op α).isConstDiag && b.isConstDiag) = false := by simp [hc]
-  simp [mulMatrix, hz, h1, isDiag, rows, diagOf]
+  simp [mulMatrix, hz, h1, isDiag, isTri, rows, diagOf]
+
+/-- `Triangular * b` (be9ba88): a triangular operator (same orientation) over the dense Hadamard product — never a
+MulLinearOperator of root decompositions (triangular operators are not PSD). -/
+theorem mulMatrix_triangular (rootDec : Op α → Op α) (up : Bool) (t b : Op α) (hz : b.isZero = false) :
+    mulMatrix rootDec (.tri up t) b
+      = .ok (.tri up (.dense t.rows t.cols fun i j => t.denote i j * b.denote i j)) := by
+  simp [mulMatrix, hz, isTri, triUpper, rows, cols, denote]
 
 /-- **Programs**: for every expression program `p` (any depth) over operators of any class, built from +, −, scalar * and /,
 elementwise *, @, add_diagonal, add_jitter and transpose: if the library's evaluation (every step through the
@@ -201,7 +208,7 @@ theorem table_mul_constant_overriders : overriders "_mul_constant" =
 theorem builds_sumkron_mul_constant : builds "SumKroneckerLinearOperator" "_mul_constant" = some ["SumLinearOperator"] := by
   decide +kernel
 theorem table_mul_matrix_overriders : overriders "_mul_matrix" =
-    ["LinearOperator", "DiagLinearOperator", "ConstantDiagLinearOperator"] := by decide +kernel
+    ["LinearOperator", "DiagLinearOperator", "ConstantDiagLinearOperator", "TriangularLinearOperator"] := by decide +kernel
 theorem table_mul_overriders : overriders "mul" = ["LinearOperator", "ZeroLinearOperator"] := by decide +kernel
 theorem table_matmul_overriders : overriders "matmul" =
     ["LinearOperator", "BlockDiagLinearOperator", "DiagLinearOperator", "ConstantDiagLinearOperator",
